@@ -38,8 +38,18 @@ TRUSTED = [
     "(C09/C02/C03), never with the engine under test",
     "hash functions of the driver are the shared Lean models, validated against hashlib each run",
     "hand models of btclib's number/bool/span code are tied by correspondence only",
+    "the btclib-shaped loop model (Model/C08/Btclib.lean) is tied to engine/script.py by the bt.eval* streams only; the "
+    "tapscript loop (engine/tapscript.py) has no btclib-shaped model: core.execwit / core.verify_input streams only",
 ]
-ASSUMPTIONS = ["flag sets are closed under Core's assertions (WITNESS => P2SH, CLEANSTACK => P2SH and WITNESS)"]
+ASSUMPTIONS = [
+    "flag sets are closed under Core's assertions (WITNESS => P2SH, CLEANSTACK => P2SH and WITNESS)",
+    "btclib_eval_refines_core_partial and signature_ops_refine_Core_shared carry the hypothesis that the model's `op_checksig` "
+    "parameter is Core's per-signature sequence over the checker Core's side uses (Btclib.sharedChecksig); that btclib's "
+    "real op_checksig is that sequence is NOT proved, is false on the five recorded divergence classes, and is tied by the "
+    "bt.eval.signed / core.eval streams (a difference is accepted only under a predicate naming one of those classes)",
+    "btclib_eval_refines_core_partial: initial stack of at most 1000 elements; Sim.covered script (true of every script: "
+    "every_opcode_is_covered)",
+]
 
 
 # ------------------------------------------------------------------ implementation side (btclib models)
@@ -80,7 +90,7 @@ def impl(line: str) -> str:
     if op in ("eval", "execwit"):
         return SP.impl_eval(t)
     if op == "bteval":
-        return SP.impl_eval(["eval", *t[1:], "0", "deny"])
+        return SP.impl_eval(["eval", *t[1:8], "0", "deny"])
     if op == "verify":
         return SP.impl_verify(t)
     return "bad-op"
@@ -248,23 +258,82 @@ def core_vectors(ctx):
                      key="core.script_tests", op_line=v["line"][:600], impl=want, model=out)
 
 
+SIG_OPS = (0xAC, 0xAD, 0xAE, 0xAF)
+
+
+def _scope_before(script: bytes) -> bool:
+    """`Sim.covered` as it stood at commit 87ac95f (before the signature op codes entered it): every instruction of
+    Core's walk except OP_CHECKSIG, OP_CHECKSIGVERIFY, OP_CHECKMULTISIG, OP_CHECKMULTISIGVERIFY"""
+    return not any(o in SIG_OPS for o, _, _ in S.op_code_spans(script))
+
+
 def bt_stream(ctx, name, lines):
-    """the btclib-shaped Lean model against the real engine (correspondence); lines on which the model steps outside
-    the op codes it covers (`unsupported`: signature checks) are counted and left out"""
-    outs = ctx.model(EXE, lines)
-    if outs is None:
-        return
-    keep = [(ln, impl(ln)) for ln, o in zip(lines, outs) if o != "unsupported"]
-    ctx.count(name + ".coverage", "unsupported", len(lines) - len(keep))
-    ctx.count(name + ".coverage", "covered", len(keep))
-    ctx.correspond(name, EXE, keep)
+    """the btclib-shaped Lean model against the real engine (correspondence).  `op_checksig` of the model is Core's
+    per-signature sequence over a checker the harness answers (`need <query>` protocol, as for the `core.*` streams), so a
+    difference that a predicate on the input recognises as one of the recorded divergence classes of btclib's
+    `op_checksig` is a property finding under that key; every other difference is a correspondence failure."""
+    work = list(lines)
+    outs = [None] * len(lines)
+    pending = list(range(len(lines)))
+    for _round in range(48):
+        res = ctx.model(EXE, [work[i] for i in pending])
+        if res is None:
+            return
+        nxt = []
+        for i, r in zip(pending, res):
+            if r.startswith("need "):
+                work[i] = SP.answer(work[i], r[5:])
+                nxt.append(i)
+            else:
+                outs[i] = r
+        pending = nxt
+        if not pending:
+            break
+    if pending:
+        raise common.HarnessError(f"oracle protocol did not converge on `{lines[pending[0]][:200]}`")
+    st = ctx.streams.setdefault(name, {"cases": 0, "mismatches": 0, "model": EXE})
+    n_uns = 0
+    for i, ln in enumerate(lines):
+        if outs[i] == "unsupported":
+            n_uns += 1
+            continue
+        io = impl(ln)
+        st["cases"] += 1
+        ctx.seen(name, ln, not io.startswith("err"))
+        ctx.count(name, io.split(" ")[0] + ("" if not io.startswith("err") else " " + io.split(" ")[1]))
+        ctx.traces += 1
+        if outs[i] != io:
+            st["mismatches"] += 1
+            key = None
+            if len(ln.split(" ")) > 8:
+                key = SP.classify_eval(SP.bt_as_eval(work[i]), io, outs[i])
+            if key in SP.KNOWN_CLASSES:
+                ctx.fail("property", name, f"engine and btclib-shaped model over Core's per-signature sequence differ on `{ln[:400]}`",
+                         key=key, op_line=ln, impl=io[:1000], model=outs[i][:1000])
+            else:
+                ctx.fail("correspondence", name, f"model and implementation differ on `{ln[:300]}`", key=name,
+                         op_line=ln, impl=io[:2000], model=outs[i][:2000])
+    if lines:
+        ctx.sample({"stream": name, "op": lines[0][:300], "impl": impl(lines[0])[:300], "model": (outs[0] or "")[:300]})
+    ctx.count(name + ".coverage", "unsupported", n_uns)
+    ctx.count(name + ".coverage", "covered", len(lines) - n_uns)
     # what fraction of the generated programs lies inside the set the loop-level theorem
-    # `btclib_eval_refines_core_partial` speaks about (`Sim.covered`, decided by the driver)
+    # `btclib_eval_refines_core_partial` speaks about (`Sim.covered`, decided by the driver), and inside the set it
+    # spoke about before the signature op codes entered it
     cov = ctx.model(EXE, ["btcovered " + ln.split(" ")[3] for ln in lines]) or []
     n_in = sum(1 for o in cov if o == "ok True")
+    n_before = sum(1 for ln in lines if _scope_before(unhx(ln.split(" ")[3])))
     ctx.count(name + ".theorem-scope", "inside", n_in)
     ctx.count(name + ".theorem-scope", "outside", len(cov) - n_in)
-    ctx.note(f"{name}: {n_in}/{len(cov)} generated programs satisfy Sim.covered (scope of btclib_eval_refines_core_partial)")
+    ctx.count(name + ".theorem-scope", "inside before the signature op codes (87ac95f)", n_before)
+    ctx.note(f"{name}: {n_in}/{len(cov)} generated programs satisfy Sim.covered (scope of btclib_eval_refines_core_partial); "
+             f"{n_before}/{len(cov)} did before the signature op codes were covered")
+    # which signature op codes ran to their success / failure answer in the model: last stack element of a `…CHECKSIG` program
+    for ln, o in zip(lines, outs):
+        sc = unhx(ln.split(" ")[3])
+        ops = {op for op, _, _ in S.op_code_spans(sc)} & set(SIG_OPS)
+        for op in ops:
+            ctx.count(name + ".sigops", f"{S.OP_CODE_NAME_FROM_INT[op]}:{'accepted' if o.startswith('ok') else 'refused'}")
 
 
 def tx_vectors(ctx):
